@@ -687,9 +687,10 @@ class Translator:
         newty = {}
         for lab, ins in blocks:
             for l in ins:
-                mm = re.match(r'^(%[A-Za-z0-9_.]+) = (?:tail )?call [^@]*@(_Znwm|_ZnwmSt11align_val_t)\(i64 (?:noundef )?(\d+)', l)
+                mm = re.match(r'^(%[A-Za-z0-9_.]+) = (?:tail )?call [^@]*@(_Znwm|_ZnwmSt11align_val_t)\(i64 (?:noundef )?(\d+|%[A-Za-z0-9_.]+)', l)
                 if mm:
-                    newty[mm.group(1)] = [int(mm.group(3)), None]
+                    # constant size: one object of that size; variable size (std::vector storage): a typed array of YK_ARR_CAP
+                    newty[mm.group(1)] = [int(mm.group(3)) if mm.group(3)[0] != '%' else None, None]
         if newty:
             for lab, ins in blocks:
                 for l in ins:
@@ -697,7 +698,8 @@ class Translator:
                     if mm and mm.group(1) in newty and newty[mm.group(1)][1] is None:
                         try:
                             ty = P(tokenize(mm.group(2)), m).type()
-                            if ty.k in ('named', 'struct') and m.size_align(ty)[0] == newty[mm.group(1)][0]:
+                            n0 = newty[mm.group(1)][0]
+                            if ty.k in ('named', 'struct') and (n0 is None or (m.size_align(ty)[0] > 0 and n0 % m.size_align(ty)[0] == 0)):
                                 newty[mm.group(1)][1] = ty
                         except Exception:
                             pass
@@ -973,7 +975,9 @@ class Translator:
                                 # whole-object copy between typed pointers: typed struct assignment (keeps CBMC field-sensitive)
                                 st.append('*(%s) = *(%s);' % (od[1], os_[1]))
                                 continue
-                            st.append('yk_%s(%s, %s, %s);' % ('memcpy' if 'memcpy' in n else 'memmove', cargs[0][1], cargs[1][1], cargs[2][1]))
+                            # variable (symbolic) size: explicit bounded byte loop (CBMC's array-level memcpy with a symbolic size is
+                            # far more expensive for the solver than <= 24 guarded byte assignments)
+                            st.append('yk_%s%s(%s, %s, %s);' % ('memcpy' if 'memcpy' in n else 'memmove', '' if sz is not None else '_v', cargs[0][1], cargs[1][1], cargs[2][1]))
                             continue
                         if n.startswith('@llvm.memset'):
                             sz = const_of(cargs[2][1])
@@ -1042,6 +1046,15 @@ class Translator:
                         ty = newty[destraw][1]
                         al = cargs[1][1] if len(cargs) > 1 else '16'
                         decl[dest] = 'uint8_t*'
+                        if newty[destraw][0] is not None and newty[destraw][0] != m.size_align(ty)[0]:
+                            # constant multiple of sizeof(T): a typed array (std::vector::reserve with a constant count)
+                            k = newty[destraw][0] // m.size_align(ty)[0]
+                            st.append('%s = (uint8_t*)malloc(sizeof(%s) * %d); yk_new_typed(%s, sizeof(%s) * %d, %s);' % (dest, t.c(ty), k, dest, t.c(ty), k, al))
+                            continue
+                        if newty[destraw][0] is None:
+                            st.append('%s = (uint8_t*)malloc(sizeof(%s) * YK_ARR_CAP); yk_new_array(%s, %s, %s, sizeof(%s) * YK_ARR_CAP);' % (
+                                dest, t.c(ty), dest, cargs[0][1], al, t.c(ty)))
+                            continue
                         st.append('%s = (uint8_t*)malloc(sizeof(%s)); yk_new_typed(%s, sizeof(%s), %s);' % (dest, t.c(ty), dest, t.c(ty), al))
                         origins[dest] = (ty, '((%s*)%s)' % (t.c(ty), dest))
                         continue
